@@ -388,7 +388,40 @@ pub fn gen_ops(cfg: &Cfg, double: bool, m: &Model, back_offered: bool, out: &mut
             }
         }
     }
-    if a & A_APPEND != 0 {
+    if a & A_APPEND != 0 && cfg.k > 6 {
+        // deep receivers: a structured family of appended queues
+        let lo = *cfg.prios.iter().min().unwrap();
+        let hi = *cfg.prios.iter().max().unwrap();
+        let absent = cfg.k - 1;
+        let mut keys: Vec<u32> = vec![];
+        if let (Some(&f), Some(&l)) = (present.first(), present.last()) {
+            keys.extend([f, present[present.len() / 2], l]);
+        }
+        keys.push(absent);
+        keys.dedup();
+        out.push(Op::Append(vec![]));
+        for &k in &keys {
+            for p in [lo, hi] {
+                out.push(Op::Append(vec![(k, ins_payload(k), p)]));
+                if cfg.append_max >= 2 && k != absent {
+                    out.push(Op::Append(vec![(k, ins_payload(k), p), (absent, ins_payload(absent), hi)]));
+                    out.push(Op::Append(vec![(absent, ins_payload(absent), lo), (k, ins_payload(k), p)]));
+                }
+            }
+        }
+        if cfg.append_max >= 2 {
+            // a longer queue that clashes with every stored item (the receiver is swapped)
+            for p in [lo, hi] {
+                let mut big: Vec<Pair> = present.iter().map(|&k| (k, ins_payload(k), p)).collect();
+                big.push((absent, ins_payload(absent), p));
+                big.push((absent + 1, 0, lo));
+                big.push((absent + 2, 0, hi));
+                out.push(Op::Append(big));
+            }
+            // half as long, disjoint
+            out.push(Op::Append((0..(n as u32 / 2).max(1)).map(|i| (absent + 1 + i, 0, if i % 2 == 0 { lo } else { hi })).collect()));
+        }
+    } else if a & A_APPEND != 0 {
         out.push(Op::Append(vec![]));
         for k in 0..cfg.k {
             for &p in &cfg.prios {
